@@ -186,7 +186,7 @@ def execute(case):
                             return scaled(fn(), q)
                         except Exception:  # noqa: a read that raises gives no value on any grid
                             return 777777
-                    events.append({"e": "Read", "supply": rd(lambda: fp.supply, 1), "demand": rd(lambda: fp.demand, 1), "u": rd(lambda: fp.utilisation, 48), "a": rd(lambda: fp.allocation, 48)})
+                    events.append({"e": "Read", "supply": rd(lambda: fp.supply, 1), "demand": rd(lambda: fp.demand, 1), "u": rd(lambda: fp.utilisation, 240), "a": rd(lambda: fp.allocation, 240)})
             nursery.cancel_scope.cancel()
 
     trio.run(main, clock=trio.testing.MockClock(autojump_threshold=0))
